@@ -442,6 +442,14 @@ func main() {
 			}
 			add("fmp4", "ram", "dupdts", sd, ddur)
 			add("ll", "dir", "dupdts", sd, ddur)
+			// the other video codecs (their parameter fields are in the table too)
+			for i, cd := range []string{"h265", "vp9", "av1"} {
+				v, st := "fmp4", "ram"
+				if (int(sd)+i)%2 == 1 {
+					v, st = "ll", "dir"
+				}
+				specs = append(specs, runSpec{Cfg: childCfg{Variant: v, Storage: st, Seed: sd, DurMS: ddur, Scenario: "normal", Readers: 8, Codec: cd}, Idx: len(specs)})
+			}
 			if *tier == "thorough" {
 				add("mpegts", "ram", "dupdts", sd, ddur)
 				add("ll", "ram", "dupdts", sd, ddur)
@@ -479,6 +487,9 @@ func main() {
 	for _, ro := range outs {
 		c := ro.Spec.Cfg
 		cfgName := fmt.Sprintf("%s/%s/%s", c.Variant, c.Storage, c.Scenario)
+		if c.Codec != "" {
+			cfgName += "/" + c.Codec
+		}
 		repro := fmt.Sprintf("work/bin/race_race -child '%s' -child-result /dev/null  (GORACE=\"halt_on_error=0\"; several runs may be needed)", mustJSON(c))
 		if ro.Err != "" {
 			errs = append(errs, cfgName+": "+ro.Err+" "+tail(ro.Stderr, 1500))
